@@ -4,6 +4,8 @@ from __future__ import annotations
 import itertools
 import json
 
+INF = float("inf")
+
 from harness.common import Run
 from harness.props import state_toy as T
 
@@ -716,10 +718,13 @@ class SamplerOracle:
         return True
 
     # -- population sampler: one call = a sequence of blocks
-    def population(self, name, T_inv, rep, directed=None):
+    def population(self, name, T_inv, rep, directed=None, force_z=None, label=None):
+        """`force_z(k, natural)`: value the k-th torch.randn call of this `sample` returns (c03.Recorder: the natural draw is still
+        drawn; the property fixes the proposal GIVEN the normal draw).  Returns the list of blocks (alpha, accepted) or None."""
         import torch
+        from harness.props import c03
         st, sampler = self.state, self.algo.samplers[name]
-        meta = dict(sampler=type(sampler).__name__, variable=name, temperature_inv=T_inv, rep=rep, directed=directed)
+        meta = dict(sampler=type(sampler).__name__, variable=name, temperature_inv=T_inv, rep=rep, directed=directed if label is None else label)
         orig_change = sampler._proposed_change_idx
         if directed is not None:
             def change(idx, _d=directed, _o=orig_change):
@@ -727,10 +732,10 @@ class SamplerOracle:
                 return torch.full_like(c, _d)
             sampler._proposed_change_idx = change
         try:
-            with Watch(st) as w:
+            with Watch(st) as w, c03.Recorder(force_z=force_z):
                 sampler.sample(st, temperature_inv=T_inv)
         except Exception as e:  # noqa
-            self.raised(meta, directed, e)
+            self.raised(meta, directed if label is None else label, e)
             return
         finally:
             if directed is not None:
@@ -751,7 +756,7 @@ class SamplerOracle:
         leak = False
         for k, b in enumerate(blocks):
             after = blocks[k + 1]["pre"] if k + 1 < len(blocks) else {n: v for n, v in st._values.items()}
-            self.run.case(("pop", self.label, name, T_inv, rep, k, str(directed)), nontrivial=True, validated=False)
+            self.run.case(("pop", self.label, name, T_inv, rep, k, str(directed if label is None else label)), nontrivial=True, validated=False)
             self.run.count("pop_block", "accepted" if b.get("accepted") else "rejected")
             if "accepted" not in b:
                 self.fail("sampler:no-decision-recorded", "a proposal was made without a Metropolis decision", dict(block=k, **meta))
@@ -775,23 +780,31 @@ class SamplerOracle:
                               dict(block=k, idx=list(b["idx"]), **meta), expected=describe(b["proposed"]), observed=describe(after[name]))
                     return
         self.end_of_step_fresh(meta, leak)
+        return [dict(alpha=b.get("alpha"), accepted=b.get("accepted")) for b in blocks]
 
     # -- individual sampler: one call = one proposal for all individuals
-    def individual(self, name, T_inv, rep, directed=None):
+    def individual(self, name, T_inv, rep, directed=None, force_z=None, sampler=None):
+        """`directed = (label, delta)` replaces the proposal; `directed = (label, None)` + `force_z(k, natural)` forces the normal draw of
+        the real `_proposed_change` instead (c03.Recorder).  `sampler`: the sampler object to run (default: the fit's own).
+        Returns dict(alpha, accepted) of the step, or None."""
         import torch
-        st, sampler = self.state, self.algo.samplers[name]
-        meta = dict(sampler=type(sampler).__name__, variable=name, temperature_inv=T_inv, rep=rep, directed=None if directed is None else directed[0])
-        if directed is not None:
+        from harness.props import c03
+        st = self.state
+        sampler = self.algo.samplers[name] if sampler is None else sampler
+        meta = dict(sampler=type(sampler).__name__, variable=name, temperature_inv=T_inv, rep=rep, directed=None if directed is None else directed[0],
+                    n_individuals=self.n_ind)
+        replace = directed is not None and directed[1] is not None
+        if replace:
             delta = directed[1]
             sampler._proposed_change = lambda _d=delta: _d.clone()
         try:
-            with Watch(st) as w:
+            with Watch(st) as w, c03.Recorder(force_z=force_z):
                 sampler.sample(st, temperature_inv=T_inv)
         except Exception as e:  # noqa
             self.raised(meta, directed, e)
             return
         finally:
-            if directed is not None:
+            if replace:
                 del sampler._proposed_change
         ev = {e[0]: e for e in w.events}
         if "put" not in ev or "decisions" not in ev:
@@ -799,8 +812,26 @@ class SamplerOracle:
             return
         pre, proposed = ev["put"][2], ev["proposed"][2]
         accepted = ev["decisions"][1].to(torch.bool)
+        info = dict(alpha=ev["decisions"][2], accepted=accepted)
         rej = [j for j in range(self.n_ind) if not bool(accepted[j])]
         acc = [j for j in range(self.n_ind) if bool(accepted[j])]
+        # the decision consumes the undo log: `state.revert(~accepted)` is what gibbs.py:758 does after EVERY decision (model: ind_step ends
+        # with RevertMask; theorem C02_ind_step: fork st' = None).  A fork still pending when `sample` returns means no reversion took place.
+        if st._last_fork is not None:
+            alpha_l = [repr(float(a)) for a in ev["decisions"][2].flatten().tolist()]
+            if rej:
+                self.fail("ind-sampler:rejected-proposal-not-reverted", f"IndividualGibbsSampler on '{name}': individuals {rej} were rejected "
+                          f"(acceptance ratios {alpha_l}; a ratio that cannot be evaluated — NaN — is a rejection) but `sample` returned without reverting: "
+                          "the undo log of the proposal is still pending and the rejected individuals keep the proposed value",
+                          dict(rejected=rej, alpha=alpha_l, **meta), expected="state._last_fork is None (state.revert(~accepted) consumed it)",
+                          observed=f"state._last_fork still holds {sorted(st._last_fork)[:6]}")
+            else:
+                self.run.count("sampler_oracle", "ind-sampler:fork-left-pending-after-all-accepted-step")
+                self.run.fail("ind-sampler:fork-left-pending", f"IndividualGibbsSampler on '{name}': every individual was accepted and `sample` returned with the undo log "
+                              "of the proposal still pending: the step is not the modelled script (put; reads; decide; revert(~accepted): C02_ind_step has "
+                              "fork = None afterwards) — a later `state.revert()` by any caller silently undoes the ACCEPTED proposal instead of being refused",
+                              dict(config=self.label, alpha=alpha_l, **meta), expected="state._last_fork is None", observed=f"pending fork on {sorted(st._last_fork)[:6]}",
+                              kind="broken-correspondence")
         self.run.case(("ind", self.label, name, T_inv, rep, str(meta["directed"])), nontrivial=bool(rej) and bool(acc), validated=False)
         self.run.count("ind_step_rejected_fraction", f"{round(10 * len(rej) / self.n_ind) * 10}%")
         at_rev = ev["before-revert"][2] if "before-revert" in ev else {}
@@ -862,8 +893,9 @@ class SamplerOracle:
                               (WHAT_F2 + f" [IndividualGibbsSampler on '{name}', node '{n}']") if nan_only else
                               f"IndividualGibbsSampler on '{name}': rows of REJECTED individuals of the derived variable '{n}' are not what they were before the proposal",
                               dict(node=n, rejected=rej, **meta), expected=describe(old), observed=describe(cur))
-                    return
+                    return info
         self.end_of_step_fresh(meta, leak)
+        return info
 
 
 def directed_changes(oracle: SamplerOracle, name, rng):
@@ -903,9 +935,133 @@ def directed_changes(oracle: SamplerOracle, name, rng):
     return out
 
 
+def one_individual_state(base, j):
+    """A harness-made state of ONE individual (what a 1-subject personalisation works on): same DAG, same population values, data variables and
+    individual latent variables restricted to individual `j` (rows j:j+1), auto-fork as in `base`, nothing forked."""
+    from leaspy.variables.specs import DataVariable, IndividualLatentVariable
+    from leaspy.variables.state import State
+    dag = base.dag
+    ind = list(dag.sorted_variables_by_type.get(IndividualLatentVariable, {}))
+    n = base[ind[0]].shape[0]
+    st = State(dag, auto_fork_type=base.auto_fork_type)
+    with st.auto_fork(None):
+        for name in dag:
+            v = base._values[name]
+            if not dag[name].is_settable or v is None:
+                continue
+            if isinstance(dag[name], (DataVariable, IndividualLatentVariable)) and tv(v).ndim >= 1 and tv(v).shape[0] == n:
+                v = clone_val(v[j:j + 1])
+            st[name] = v
+    return st
+
+
+def z_candidates(shape, std):
+    """normal draws (for ONE individual) whose proposal `previous + std * z` cannot be evaluated, or is huge"""
+    import torch
+    numel = 1
+    for d in shape:
+        numel *= d
+    alt = torch.tensor([INF if i % 2 == 0 else -INF for i in range(numel)]).reshape(shape)
+    huge = 3e38 / max(float(std), 1.0)          # std * z <= 3e38 stays a float32
+    out = [("z = +inf", torch.full(shape, INF)), ("z = -inf", torch.full(shape, -INF)), ("z = 3e38 / max(std, 1)", torch.full(shape, huge))]
+    if numel >= 2:
+        out.insert(0, ("z = (+inf, -inf, ..)", alt))
+        half = torch.tensor([huge if i % 2 == 0 else -huge for i in range(numel)]).reshape(shape)
+        out.append(("z = (3e38, -3e38, ..) / max(std, 1)", half))
+    return out
+
+
+def nan_alpha_steps(run: Run, orc: SamplerOracle, algo, base, rng, stats):
+    """Directed real-sampler steps around the NaN acceptance ratio (the seeded defect "revert only `if (alpha < 1).any()`"): one individual gets a
+    normal draw whose proposal cannot be evaluated (+-inf / huge: alpha is NaN when inf - inf or inf * 0 appears; `rand < nan` is a rejection), every
+    other individual of the batch gets the draw 0 (null move: alpha = 1 exactly, accepted) — (a) on a ONE-individual state (no other individual at
+    all), (b) on the full cohort with the normal draws of all other individuals FORCED to 0 (c03.Recorder wraps torch.randn for that call; the real
+    `_proposed_change` runs).  For `xi` also after `tau := first observed age` of the target (exp(xi) * (t - tau) = inf * 0).  All individual-sampler
+    variables of the configuration.  The oracle of `SamplerOracle.individual` then requires: rejected rows of the variable and of every doubly cached
+    per-individual derived value bit-identical to the snapshot taken before the proposal, every read equal to a from-scratch evaluation, and
+    `state._last_fork is None`.  Population samplers: one block gets the non-finite draw, the other blocks the draw 0."""
+    import copy
+    import torch
+    from leaspy.samplers import IndividualGibbsSampler
+    label = orc.label
+    n = orc.n_ind
+    for name in [v for v in algo.samplers if v in orc.ind_vars]:
+        sampler = algo.samplers[name]
+        shape = tuple(sampler.shape)
+        preps = [None] + (["tau := first observed age"] if (name == "xi" and "tau" in orc.ind_vars and "t" in orc.names) else [])
+        for prep in preps:
+            for scen in ("single individual", "others forced to a null move"):
+                j0 = rng.randrange(n)
+                for lab, zrow in z_candidates(shape, float(sampler.std.flatten()[j0 if scen != "single individual" else 0])):
+                    if scen == "single individual":
+                        st = one_individual_state(base, j0)
+                        smp = IndividualGibbsSampler(name, shape, n_patients=1, scale=float(sampler.scale))
+                        target, n_here = 0, 1
+                    else:
+                        st = base.clone()
+                        st.auto_fork_type = base.auto_fork_type
+                        smp = copy.deepcopy(sampler)
+                        target, n_here = j0, n
+                    if prep is not None:
+                        with st.auto_fork(None):
+                            tau = st["tau"].clone()
+                            tau[target, 0] = tv(st["t"])[target, 0].to(tau.dtype)
+                            st["tau"] = tau
+                    z = torch.zeros((n_here, *shape))
+                    z[target] = zrow
+                    sub = SamplerOracle(run, label, algo, st)
+                    full = f"{scen}; {lab}" + (f"; after {prep}" if prep else "")
+                    info = sub.individual(name, 1.0, 0, directed=(full, None), force_z=lambda k, nat, _z=z: _z if k == 0 else None, sampler=smp)
+                    key = f"{name}: {scen}"
+                    if info is None:
+                        stats["individual"][key + ": step raised or a check failed"] = stats["individual"].get(key + ": step raised or a check failed", 0) + 1
+                        continue
+                    a = info["alpha"].flatten()
+                    others = [i for i in range(n_here) if i != target]
+                    reached = bool(a[target].isnan()) and all(float(a[i]) >= 1 for i in others) and not bool(info["accepted"][target])
+                    kind = ("alpha[target] = NaN, every other alpha >= 1" if reached else
+                            "alpha[target] = NaN, some other alpha < 1" if bool(a[target].isnan()) else
+                            f"alpha[target] = {'0' if float(a[target]) == 0 else 'inf' if float(a[target]) == INF else 'finite'} (no NaN)")
+                    stats["individual"][f"{key}: {kind}"] = stats["individual"].get(f"{key}: {kind}", 0) + 1
+                    if reached:
+                        stats["reached"][scen] = stats["reached"].get(scen, 0) + 1
+                        stats["reached_configs"].add(f"{label}/{name}/{scen}")
+    for name in [v for v in algo.samplers if v not in orc.ind_vars]:
+        sampler = algo.samplers[name]
+        for lab, val in (("z = +inf", INF), ("z = -inf", -INF), ("z = 3e38 / max(std, 1)", None)):
+            st = base.clone()
+            st.auto_fork_type = base.auto_fork_type
+            sub = SamplerOracle(run, label, dict_algo(algo, name, copy.deepcopy(sampler)), st)
+            kb = rng.randrange(4)
+
+            def fz(k, nat, _kb=kb, _val=val, _std=float(sampler.std.flatten()[0])):
+                v = (3e38 / max(_std, 1.0)) if _val is None else _val
+                return torch.full_like(nat, v if k == _kb else 0.0)
+            blocks = sub.population(name, 1.0, 0, force_z=fz, label=f"block #{kb}: {lab}; other blocks: null move")
+            for b in blocks or []:
+                a = b["alpha"]
+                kind = "NaN" if (a is not None and a != a) else "other"
+                stats["population"][f"{name}: alpha {kind}, {'accepted' if b['accepted'] else 'rejected'}"] = \
+                    stats["population"].get(f"{name}: alpha {kind}, {'accepted' if b['accepted'] else 'rejected'}", 0) + 1
+                if kind == "NaN":
+                    stats["reached"]["population block"] = stats["reached"].get("population block", 0) + 1
+
+
+class dict_algo:
+    """the fit's algorithm object with ONE sampler replaced (a deep copy: directed steps must not adapt the fit's own sampler)"""
+
+    def __init__(self, algo, name, sampler):
+        self.samplers = dict(algo.samplers)
+        self.samplers[name] = sampler
+
+
+NAN_STATS = dict(individual={}, population={}, reached={}, reached_configs=set())
+
+
 def real_samplers(run: Run, cfgs, reps):
     import torch
     from harness.props import c03
+    NAN_STATS.update(individual={}, population={}, reached={}, reached_configs=set())
     for label, kind, kw, pop in cfgs:
         try:
             algo, state = c03.fitted(run, label, kind, kw, pop)
@@ -940,6 +1096,11 @@ def real_samplers(run: Run, cfgs, reps):
                     orc.state.auto_fork_type = base.auto_fork_type
                     orc.population(name, 1.0, 0, directed=d)
         orc.state = base
+        try:
+            nan_alpha_steps(run, orc, algo, base, rng, NAN_STATS)
+        except Exception as e:  # noqa
+            import traceback
+            run.broken("real-sampler-oracle:nan-alpha-steps", f"{label}: {type(e).__name__}: {e}\n{traceback.format_exc()[-1500:]}")
         run.count("shipped", f"{label}: {len(names)} samplers on a {len(orc.names)}-node graph, {orc.n_ind} individuals, torch seed {seed}")
 
 
@@ -1003,6 +1164,17 @@ def main(run: Run):
     except Exception as e:  # noqa
         import traceback
         run.broken("real-sampler-oracle", f"{type(e).__name__}: {e}\n{traceback.format_exc()[-1500:]}")
+    st = dict(NAN_STATS)
+    st["reached_configs"] = sorted(st["reached_configs"])
+    st["note"] = ("directed real IndividualGibbsSampler steps in which ONE individual gets a normal draw whose proposal cannot be evaluated and every other "
+                  "individual of the batch a null move (draw forced to 0), on a one-individual state and on the full cohort; 'reached' = the recorded "
+                  "acceptance ratios are NaN for the target and >= 1 for everybody else (the step in which a reversion guarded by `(alpha < 1).any()` "
+                  "is skipped); population samplers: one block with the non-finite draw, the others with the draw 0")
+    run.extra["nan_alpha_steps"] = st
+    for scen in ("single individual", "others forced to a null move", "population block"):
+        if cfgs and not NAN_STATS["reached"].get(scen):
+            run.broken("generator:nan-alpha-shape", f"no directed sampler step reached the shape '{scen}' with a NaN acceptance ratio for the target and "
+                       f"alpha >= 1 for everybody else: {json.dumps(st, default=str)[:1500]}", kind="broken-correspondence")
     return run.finish()
 
 
